@@ -275,6 +275,11 @@ def possibly_unbound_reads(ctx, fn):
                         add(x.target.id, n)
         if n.kind == "handler" and isinstance(a, ast.ExceptHandler) and a.name:
             add(a.name, n)
+        if n.kind == "test":
+            # `if (m := pattern.search(s)):` binds in the test itself
+            for x in walk(a):
+                if isinstance(x, ast.NamedExpr) and isinstance(x.target, ast.Name):
+                    add(x.target.id, n)
     for st in walk(fn):
         if isinstance(st, ast.For):
             for x in walk(st.target):
